@@ -8,6 +8,8 @@ import (
 	"sync/atomic"
 
 	corev1 "k8s.io/api/core/v1"
+	storagev1 "k8s.io/api/storage/v1"
+	metav1 "k8s.io/apimachinery/pkg/apis/meta/v1"
 	"k8s.io/apimachinery/pkg/types"
 
 	"verifharness/internal/core"
@@ -27,7 +29,17 @@ type RoomIn struct {
 	Scn world.Scenario `json:"scenario"`
 	// Absent lists [node name, label key] pairs: the Node object of that (unmanaged) node lacks the label
 	Absent [][2]string `json:"absent"`
+	// Limits: the CSINode object of that node reports this attach limit (allocatable count) for the CSI driver of the world
+	Limits []NodeLimit `json:"limits"`
 }
+
+// NodeLimit is the attach limit a node's CSINode reports for the driver all volumes of the world belong to.
+type NodeLimit struct {
+	Node  string `json:"node"`
+	Count int32  `json:"count"`
+}
+
+const csiDriver = "verif.csi.example.com"
 
 // strippable: the well-known labels a node that Karpenter does not manage may lack
 var strippable = []string{"karpenter.sh/capacity-type", corev1.LabelTopologyZone, corev1.LabelInstanceTypeStable, corev1.LabelArchStable, corev1.LabelOSStable}
@@ -54,6 +66,16 @@ func implRoom(raw json.RawMessage) (any, error) {
 			return nil, err
 		}
 		touched[a[0]] = true
+	}
+	// CSINode objects with the driver's attach limit; the real informer rebuilds the state node (populateVolumeLimits)
+	for _, l := range in.Limits {
+		cnt := l.Count
+		csi := &storagev1.CSINode{ObjectMeta: metav1.ObjectMeta{Name: l.Node, UID: types.UID("csinode-" + l.Node)},
+			Spec: storagev1.CSINodeSpec{Drivers: []storagev1.CSINodeDriver{{Name: csiDriver, NodeID: l.Node, Allocatable: &storagev1.VolumeNodeResources{Count: &cnt}}}}}
+		if err := h.c.Create(h.w.Ctx, csi); err != nil {
+			return nil, err
+		}
+		touched[l.Node] = true
 	}
 	names := []string{}
 	for n := range touched {
@@ -275,10 +297,115 @@ func laterTermVolumes(r *rand.Rand, in *RoomIn) {
 	}
 }
 
+// attachLimits: nodes report a CSI attach limit at or just above the number of distinct volumes their running pods use, and
+// pending pods of the property's class mount a claim that is ALREADY in use on the node (a shared claim: the set of attached
+// volumes does not grow), a new claim, or both; a second pending pod may mount the same claim again.
+func attachLimits(r *rand.Rand, in *RoomIn) {
+	s := &in.Scn
+	if len(s.Pods) == 0 {
+		return
+	}
+	seq := len(s.PVCs) + 500
+	newClaim := func() string {
+		seq++
+		claim := world.PVC{Name: fmt.Sprintf("claim-l%d", seq)}
+		if r.Float64() < 0.6 {
+			pv := world.PV{Name: fmt.Sprintf("pv-l%d", seq)}
+			claim.VolumeName = pv.Name
+			s.PVs = append(s.PVs, pv)
+		} else {
+			have := false
+			for _, sc := range s.StorageClasses {
+				if sc.Name == "sc-free" {
+					have = true
+				}
+			}
+			if !have {
+				s.StorageClasses = append(s.StorageClasses, world.StorageClass{Name: "sc-free"})
+			}
+			claim.StorageClass = "sc-free"
+		}
+		s.PVCs = append(s.PVCs, claim)
+		return claim.Name
+	}
+	distinct := func(ps []world.Pod) []string {
+		seen := map[string]bool{}
+		var out []string
+		for _, p := range ps {
+			for _, v := range p.Volumes {
+				if !seen[v.Claim] {
+					seen[v.Claim] = true
+					out = append(out, v.Claim)
+				}
+			}
+		}
+		return out
+	}
+	pi := 0
+	for i := range s.Nodes {
+		n := &s.Nodes[i]
+		if n.Stage == "claim" || n.Stage == "node" || n.Deleting || r.Float64() < 0.3 {
+			continue
+		}
+		it := itOf(s, n.IT)
+		if it == nil {
+			continue
+		}
+		// the running pods live in the default namespace and use one to three claims
+		for j := range n.Pods {
+			n.Pods[j].Namespace = ""
+		}
+		if len(n.Pods) == 0 {
+			if it.CPU-it.Overhead < 300 || it.Pods < 3 {
+				continue
+			}
+			n.Pods = append(n.Pods, world.Pod{Name: fmt.Sprintf("vbound-%d", i), Labels: map[string]string{"app": "v"}, CPU: 100, Mem: 64,
+				Tolerations: []world.Toleration{{Operator: "Exists"}}})
+		}
+		k := 1 + r.IntN(3)
+		for j := 0; j < k; j++ {
+			b := &n.Pods[r.IntN(len(n.Pods))]
+			if b.Daemon {
+				continue
+			}
+			b.Volumes = append(b.Volumes, world.Volume{Name: fmt.Sprintf("vl-%d", len(b.Volumes)), Claim: newClaim()})
+		}
+		used := distinct(n.Pods)
+		if len(used) == 0 {
+			continue
+		}
+		in.Limits = append(in.Limits, NodeLimit{Node: n.Name, Count: int32(len(used) + []int{0, 0, 1, 2}[r.IntN(4)])})
+		// pending pods that fit the node's requests
+		free := it.CPU - it.Overhead - podCPU(n.Pods)
+		for m := 0; m < 1+r.IntN(2) && pi < len(s.Pods); m++ {
+			p := &s.Pods[pi]
+			pi++
+			makePlain(p)
+			p.Namespace = ""
+			p.Volumes = nil
+			if free >= 200 {
+				p.CPU = 100
+				p.Mem = 64
+			}
+			switch x := r.Float64(); {
+			case x < 0.5:
+				p.Volumes = append(p.Volumes, world.Volume{Name: "vs-0", Claim: used[r.IntN(len(used))]})
+			case x < 0.75:
+				p.Volumes = append(p.Volumes, world.Volume{Name: "vs-0", Claim: used[r.IntN(len(used))]}, world.Volume{Name: "vs-1", Claim: newClaim()})
+			default:
+				p.Volumes = append(p.Volumes, world.Volume{Name: "vs-0", Claim: newClaim()})
+			}
+		}
+	}
+	if in.Limits == nil {
+		in.Limits = []NodeLimit{}
+	}
+}
+
 func genRoom(r *rand.Rand, t core.Tier) any {
 	s := world.GenScenario(r, roomOpts)
 	singleTerm(r, s)
-	in := RoomIn{Absent: [][2]string{}}
+	in := RoomIn{Absent: [][2]string{}, Limits: []NodeLimit{}}
 	// replicas share slices: give every pod its own copy before editing single pods
 	for i := range s.Pods {
 		s.Pods[i] = world.ClonePod(s.Pods[i])
@@ -293,6 +420,9 @@ func genRoom(r *rand.Rand, t core.Tier) any {
 	}
 	if x >= 0.45 {
 		bareNodes(r, &in)
+	}
+	if r.Float64() < 0.3 {
+		attachLimits(r, &in)
 	}
 	return in
 }
@@ -309,10 +439,15 @@ func shrinkRoom(raw json.RawMessage) []any {
 	}
 	var out []any
 	for _, c := range shrinkScenario(&in.Scn) {
-		n := RoomIn{Scn: *c, Absent: [][2]string{}}
+		n := RoomIn{Scn: *c, Absent: [][2]string{}, Limits: []NodeLimit{}}
 		names := map[string]bool{}
 		for _, nd := range c.Nodes {
 			names[nd.Name] = true
+		}
+		for _, l := range in.Limits {
+			if names[l.Node] {
+				n.Limits = append(n.Limits, l)
+			}
 		}
 		for _, a := range in.Absent {
 			if names[a[0]] {
@@ -322,7 +457,7 @@ func shrinkRoom(raw json.RawMessage) []any {
 		out = append(out, n)
 	}
 	for i := range in.Absent {
-		n := RoomIn{Scn: in.Scn, Absent: [][2]string{}}
+		n := RoomIn{Scn: in.Scn, Absent: [][2]string{}, Limits: in.Limits}
 		n.Absent = append(n.Absent, in.Absent[:i]...)
 		n.Absent = append(n.Absent, in.Absent[i+1:]...)
 		out = append(out, n)
@@ -331,8 +466,14 @@ func shrinkRoom(raw json.RawMessage) []any {
 		if len(in.Scn.Pods[i].Volumes) > 0 {
 			c := cloneScn(&in.Scn)
 			c.Pods[i].Volumes = nil
-			out = append(out, RoomIn{Scn: *c, Absent: in.Absent})
+			out = append(out, RoomIn{Scn: *c, Absent: in.Absent, Limits: in.Limits})
 		}
+	}
+	for i := range in.Limits {
+		n := RoomIn{Scn: in.Scn, Absent: in.Absent, Limits: []NodeLimit{}}
+		n.Limits = append(n.Limits, in.Limits[:i]...)
+		n.Limits = append(n.Limits, in.Limits[i+1:]...)
+		out = append(out, n)
 	}
 	return out
 }
@@ -407,23 +548,62 @@ func roomLabels(raw json.RawMessage, impl any) []string {
 	if vols {
 		l = append(l, "pending-pod-with-volume")
 	}
+	if len(in.Limits) > 0 {
+		l = append(l, "node-with-attach-limit")
+		for _, lim := range in.Limits {
+			for _, n := range in.Scn.Nodes {
+				if n.Name != lim.Node {
+					continue
+				}
+				used := map[string]bool{}
+				for _, bp := range n.Pods {
+					for _, v := range bp.Volumes {
+						used[v.Claim] = true
+					}
+				}
+				if len(used) >= int(lim.Count) {
+					l = append(l, "node-at-attach-limit")
+				}
+				for _, p := range in.Scn.Pods {
+					for _, v := range p.Volumes {
+						if used[v.Claim] {
+							l = append(l, "pending-pod-remounts-attached-claim")
+						}
+					}
+				}
+			}
+		}
+		l = dedupS(l)
+	}
 	if multi {
 		l = append(l, "volume-with-several-topology-terms")
 	}
 	return l
 }
 
+func dedupS(xs []string) []string {
+	seen := map[string]bool{}
+	var out []string
+	for _, x := range xs {
+		if !seen[x] {
+			seen[x] = true
+			out = append(out, x)
+		}
+	}
+	return out
+}
+
 func roomOp() *core.Op {
 	return &core.Op{
 		Name: "c04.room",
-		Doc:  "single real Provisioner.Schedule passes with the commit trace where a node's room hangs on more than the pod's own labels / taints / requests: Node objects that lack well-known labels (nodes Karpenter does not manage; the label removal is delivered through the real informer.NodeController -> Cluster.UpdateNode) next to DaemonSets that select on exactly those labels, and pods whose PersistentVolumeClaims have several OR-ed topology terms (PV node affinity / StorageClass allowedTopologies) of which an existing node satisfies the first, a later one, or none; judged by Karp.Spec.NeedCapacity (a DaemonSet whose selector needs a label the node lacks reserves nothing there; a node reaches a volume if SOME term holds on its labels)",
+		Doc:  "single real Provisioner.Schedule passes with the commit trace where a node's room hangs on more than the pod's own labels / taints / requests: Node objects that lack well-known labels (nodes Karpenter does not manage; the label removal is delivered through the real informer.NodeController -> Cluster.UpdateNode) next to DaemonSets that select on exactly those labels, and pods whose PersistentVolumeClaims have several OR-ed topology terms (PV node affinity / StorageClass allowedTopologies) of which an existing node satisfies the first, a later one, or none, and nodes whose CSINode reports an attach limit at or just above the distinct claims their running pods use while pending pods re-mount one of those claims and / or bring new ones (CSINode objects created in the API, delivered through the real NodeController -> populateVolumeLimits; VolumeUsage.ExceedsLimits / Add inside ExistingNode.CanAdd / Add); judged by Karp.Spec.NeedCapacity (a DaemonSet whose selector needs a label the node lacks reserves nothing there; a node reaches a volume if SOME term holds on its labels)",
 		N:    func(t core.Tier) int { return map[core.Tier]int{core.Quick: 500, core.Thorough: 6000}[t] },
 		Gen:  genRoom,
 		Impl: implRoom,
-		Rule: "non-trivial = the cluster has an active node and (a node lacks a well-known label that a DaemonSet selects, or a pending pod mounts a volume with several topology terms)",
+		Rule: "non-trivial = the cluster has an active node and (a node lacks a well-known label that a DaemonSet selects, or a pending pod mounts a volume with several topology terms, or a pending pod re-mounts a claim in use on a node with a CSI attach limit)",
 		Nontrivial: func(raw json.RawMessage, impl any) bool {
 			ls := roomLabels(raw, impl)
-			return has(ls, "daemonset-selects-absent-label") || has(ls, "volume-with-several-topology-terms")
+			return has(ls, "daemonset-selects-absent-label") || has(ls, "volume-with-several-topology-terms") || has(ls, "pending-pod-remounts-attached-claim")
 		},
 		Labels:    roomLabels,
 		Signature: func(raw json.RawMessage, impl any) string { return "room" },
